@@ -88,7 +88,16 @@ std::string vf_run(const Case &c, vf::Ctx &ctx) {
   } else if (c.drop >= 0 && !msgs.empty()) msgs.erase(msgs.begin() + (c.drop % (int)msgs.size()));
   if (msgs.size() < 2) { ctx.count("files_with_less_than_two_lines"); return ""; }
   std::string D = " | " + c.describe();
-  auto build = [&](const std::vector<size_t> &perm) { std::string f = header; for (size_t k : perm) f += msgs[k] + "\n"; return f; };
+  // every other case some messages share a line (the format separates messages by whitespace, not by line breaks)
+  const bool share_lines = c.shuffle.size() > 1 && c.shuffle[1] % 2 == 1;
+  size_t layout = 0;
+  auto build = [&](const std::vector<size_t> &perm) {
+    std::string f = header;
+    for (size_t i = 0; i < perm.size(); i++) f += msgs[perm[i]] + ((share_lines && i + 1 < perm.size() && (i + layout) % 3 != 2) ? " " : "\n");
+    layout++;
+    return f;
+  };
+  if (share_lines) ctx.count("class.several_messages_per_line");
   std::vector<size_t> canon(msgs.size());
   for (size_t i = 0; i < canon.size(); i++) canon[i] = i;
   ga::App &base = loader;
